@@ -264,6 +264,20 @@ func c06ChecksigCases(yield func(c06Case), thorough bool) {
 					lock3 := bytesJoin(minimalPush(append([]byte{0x99}, sig...)), []byte{0x75}, minimalPush(sig), tail)
 					yield(c06Case{scriptCase: scriptCase{Unlock: nil, Lock: lock3, Flags: f, FixedPrev: true}, Op: "sig-substring-in-script", Sig: "signs-code-without-itself", Key: "compressed", HT: ht})
 				}
+				// (1b) legacy, no encoding flags: the signature element padded to 72..80 bytes (lax DER
+				// tolerates trailing bytes), so that its push crosses the direct-push / PUSHDATA1 boundary
+				if ht&0x40 == 0 && f&(fStrict|fDER|fLowS|fForkID) == 0 {
+					base := scriptCase{Unlock: tail, Lock: []byte{0x61}, Flags: f}
+					rt, amount := base.ctx()
+					raw := cachedSign(k0, 0, rt, 0, tail, amount, ht, false, "self-unlock")
+					for L := 72; L <= 80; L++ {
+						if L <= len(raw) {
+							continue
+						}
+						padded := append(append(append([]byte(nil), raw[:len(raw)-1]...), make([]byte, L-len(raw))...), ht)
+						yield(c06Case{scriptCase: scriptCase{Unlock: bytesJoin(minimalPush(padded), tail), Lock: []byte{0x61}, Flags: f}, Op: "checksig-inside-unlocking-script", Sig: fmt.Sprintf("padded-to-%d", L), Key: "compressed", HT: ht})
+					}
+				}
 				// (2) CHECKSIG executed inside the unlocking script: <sig> <key> CHECKSIG / NOP
 				{
 					base := scriptCase{Unlock: tail, Lock: []byte{0x61}, Flags: f}
@@ -354,41 +368,57 @@ func c06MultisigCases(yield func(c06Case), thorough bool) {
 								}
 								other := *rt
 								other.LockTime ^= 0x33
-								for combo := 0; combo < total; combo++ {
-									x := combo
-									var sigs [][]byte
-									desc := ""
-									for i := 0; i < m; i++ {
-										s := x % nslot
-										x /= nslot
-										switch {
-										case s < n:
-											sigs = append(sigs, cachedSign(keys[s], keyIdx[s], rt, 0, code, amount, ht, forkAlgo, "ms"))
-											desc += fmt.Sprintf("k%d,", s)
-										case s == n:
-											sigs = append(sigs, []byte{})
-											desc += "empty,"
-										case s == n+1:
-											sigs = append(sigs, []byte{ht})
-											desc += "type-only,"
-										case s == n+2:
-											sigs = append(sigs, cachedSign(keys[0], keyIdx[0], &other, 0, code, amount, ht, forkAlgo, "ms"))
-											desc += "other-tx,"
-										default:
-											sigs = append(sigs, highS(cachedSign(keys[i%3], keyIdx[i%3], rt, 0, code, amount, ht, forkAlgo, "ms")))
-											desc += "high-s,"
-										}
+								for pass := 0; pass < 2; pass++ {
+									mixed := pass == 1
+									if mixed && (m < 2 || (!thorough && mask%4 != 0)) {
+										continue
 									}
-									for _, dummy := range [][]byte{{}, {0x01}} {
-										if !thorough && len(dummy) > 0 && combo%3 != 0 {
-											continue
+									for combo := 0; combo < total; combo++ {
+										x := combo
+										var sigs [][]byte
+										desc := ""
+										for i := 0; i < m; i++ {
+											s := x % nslot
+											x /= nslot
+											switch {
+											case s < n:
+												hti := ht
+												if mixed {
+													// every signature of the tuple carries its own hash type
+													alts := []uint8{ht, ht | 0x80, (ht &^ 3) | 3, (ht &^ 3) | 2}
+													hti = alts[i%len(alts)]
+												}
+												sigs = append(sigs, cachedSign(keys[s], keyIdx[s], rt, 0, code, amount, hti, hti&0x40 != 0 && f&fForkID != 0, "ms"))
+												desc += fmt.Sprintf("k%d,", s)
+											case s == n:
+												sigs = append(sigs, []byte{})
+												desc += "empty,"
+											case s == n+1:
+												sigs = append(sigs, []byte{ht})
+												desc += "type-only,"
+											case s == n+2:
+												sigs = append(sigs, cachedSign(keys[0], keyIdx[0], &other, 0, code, amount, ht, forkAlgo, "ms"))
+												desc += "other-tx,"
+											default:
+												sigs = append(sigs, highS(cachedSign(keys[i%3], keyIdx[i%3], rt, 0, code, amount, ht, forkAlgo, "ms")))
+												desc += "high-s,"
+											}
 										}
-										u := minimalPush(dummy)
-										for _, s := range sigs {
-											u = append(u, minimalPush(s)...)
+										for _, dummy := range [][]byte{{}, {0x01}} {
+											if !thorough && len(dummy) > 0 && combo%3 != 0 {
+												continue
+											}
+											u := minimalPush(dummy)
+											for _, s := range sigs {
+												u = append(u, minimalPush(s)...)
+											}
+											ex := fmt.Sprintf("|dummy=%d", len(dummy))
+											if mixed {
+												ex += "|mixed-hash-types"
+											}
+											yield(c06Case{scriptCase: scriptCase{Unlock: u, Lock: lock, Flags: f}, Op: v.name, Sig: fmt.Sprintf("%dof%d:%s", m, n, desc), Key: km, HT: ht,
+												Extra: ex})
 										}
-										yield(c06Case{scriptCase: scriptCase{Unlock: u, Lock: lock, Flags: f}, Op: v.name, Sig: fmt.Sprintf("%dof%d:%s", m, n, desc), Key: km, HT: ht,
-											Extra: fmt.Sprintf("|dummy=%d", len(dummy))})
 									}
 								}
 							}
@@ -402,7 +432,7 @@ func c06MultisigCases(yield func(c06Case), thorough bool) {
 
 func init() {
 	p := register(&Prop{ID: "C06", Level: "exploration",
-		Rule: "exhaustive product with real ECDSA signatures, every case executed in lockstep against the reference model (CHECKSIG/CHECKMULTISIG written after the node's interpreter, certified on the signature vectors of script_tests.json; digests certified on the sighash vectors): CHECKSIG family: 8 locking-script forms (CHECKSIG, NOT, CHECKSIGVERIFY, OP_CODESEPARATOR before the key / before the opcode / unexecuted / later in the script, P2PKH) x 5 key encodings (compressed, uncompressed, hybrid, truncated, empty) x 17 hash types (12 standard, 5 undefined) x 9 signature kinds (valid, over another tx, by another key, over the other digest algorithm, empty, hash-type byte only, high-S, DER-padded, wrong DER length) x ALL 64 subsets of {STRICTENC, DERSIG, LOW_S, NULLDUMMY, NULLFAIL, SIGHASH_FORKID} x both eras x tx shapes (1 in/1 out, no outputs; thorough: 2 inputs); signature-in-script (exact push and substring). CHECKMULTISIG family: every m-of-n with 0<=m<=n<=3, every m-tuple over the slot alphabet {valid by key j for every j, empty, type-only, other tx, high-S} (hence every order), dummy {empty, 01}, key mutations, 3 opcode forms, 2/5 hash types, 64 flag subsets x both eras. Oracle: verdict and every stack snapshot equal the reference. distinct_nontrivial = distinct (script pair, flags) executions",
+		Rule: "exhaustive product with real ECDSA signatures, every case executed in lockstep against the reference model (CHECKSIG/CHECKMULTISIG written after the node's interpreter, certified on the signature vectors of script_tests.json; digests certified on the sighash vectors): CHECKSIG family: 8 locking-script forms (CHECKSIG, NOT, CHECKSIGVERIFY, OP_CODESEPARATOR before the key / before the opcode / unexecuted / later in the script, P2PKH) x 5 key encodings (compressed, uncompressed, hybrid, truncated, empty) x 17 hash types (12 standard, 5 undefined) x 9 signature kinds (valid, over another tx, by another key, over the other digest algorithm, empty, hash-type byte only, high-S, DER-padded, wrong DER length) x ALL 64 subsets of {STRICTENC, DERSIG, LOW_S, NULLDUMMY, NULLFAIL, SIGHASH_FORKID} x both eras x tx shapes (1 in/1 out, no outputs; thorough: 2 inputs); signature-in-script (exact push and substring). CHECKMULTISIG family: every m-of-n with 0<=m<=n<=3, every m-tuple over the slot alphabet {valid by key j for every j, empty, type-only, other tx, high-S} (hence every order), dummy {empty, 01}, key mutations, 3 opcode forms, uniform and mixed per-signature hash types, 2/5 hash types, 64 flag subsets x both eras. Oracle: verdict and every stack snapshot equal the reference. distinct_nontrivial = distinct (script pair, flags) executions",
 	})
 	sp := NewSpace(p, "sigops", c06Check)
 	p.Run = func(r *rep.Run, thorough bool) {
